@@ -747,3 +747,39 @@ Theorem receive_total (V T : Type) (registry : bytes -> option T) (dec : T -> by
   snd (recv_all fix_f04 limit segs) <> FinFuel /\
   snd (handle_all registry dec fix_f04 limit segs) <> FinFuel.
 Proof. split; [apply recv_all_fuel|apply handle_all_fuel]. Qed.
+
+(* ======================================================================== *)
+(* type ids: the uuid (a hash H) of the package-qualified type name          *)
+(* ======================================================================== *)
+
+(* computeMessageType: tid t = H (qname t).  If qualified names identify types
+   and H does not collide on them, ids identify types ... *)
+Theorem type_ids_injective (T Name : Type) (qname : T -> Name) (H : Name -> bytes) :
+  (forall t1 t2, qname t1 = qname t2 -> t1 = t2) ->
+  (forall n1 n2, H n1 = H n2 -> n1 = n2) ->
+  forall t1 t2, H (qname t1) = H (qname t2) -> t1 = t2.
+Proof. intros Hq Hh t1 t2 E. apply Hq, Hh, E. Qed.
+
+(* ... whereas any name function that identifies two types (the bare name of
+   namesakes in different packages) gives them one id, whatever the hash *)
+Theorem type_ids_collide (T Name : Type) (bare : T -> Name) (H : Name -> bytes) t1 t2 :
+  bare t1 = bare t2 -> H (bare t1) = H (bare t2).
+Proof. intros E. now rewrite E. Qed.
+
+(* the registry as a table of the registered types: with ids that identify
+   types, looking up a registered type's id gives that type -- the hypothesis
+   [registered] of the value theorems (which of two entries with one id wins
+   does not matter then) *)
+Definition registry_of {T} (types : list T) (tid : T -> bytes) (id : bytes) : option T :=
+  find (fun t => bytes_eqb (tid t) id) types.
+
+Theorem registry_of_registered {T} (types : list T) (tid : T -> bytes) :
+  (forall t1 t2, In t1 types -> In t2 types -> tid t1 = tid t2 -> t1 = t2) ->
+  forall t, In t types -> registry_of types tid (tid t) = Some t.
+Proof.
+  unfold registry_of. induction types as [|a r IH]; intros Hinj t Hin; [destruct Hin|].
+  cbn [find]. destruct (bytes_eqb (tid a) (tid t)) eqn:E.
+  - apply bytes_eqb_eq in E. f_equal. apply Hinj; [now left|exact Hin|exact E].
+  - destruct Hin as [->|Hin]; [now rewrite bytes_eqb_refl in E|].
+    apply IH; [|exact Hin]. intros t1 t2 H1 H2. apply Hinj; now right.
+Qed.
